@@ -218,6 +218,10 @@ def setattr_(obj, name, v):
 
 # ------------------------------------------------------------------ RegExp
 
+_JS_WS = '\\t\\n\\x0b\\x0c\\r \\xa0\\u1680\\u2000-\\u200a\\u2028\\u2029\\u202f\\u205f\\u3000\\ufeff'
+_JS_CLASS = {'s': _JS_WS, 'S': _JS_WS, 'd': '0-9', 'D': '0-9', 'w': 'A-Za-z0-9_', 'W': 'A-Za-z0-9_'}
+
+
 def _py_pattern(p):
     """JS pattern -> Python pattern for the constructs used by the kernels ($ -> \\Z outside classes; the rest is common syntax)."""
     out = []
@@ -226,7 +230,18 @@ def _py_pattern(p):
     while i < len(p):
         c = p[i]
         if c == '\\':
-            out.append(p[i:i + 2])
+            esc = p[i:i + 2]
+            # class escapes: ECMAScript's are ASCII / its own WhiteSpace + LineTerminator set, Python's str versions are Unicode-aware
+            if esc[1:] in _JS_CLASS:
+                body = _JS_CLASS[esc[1:]]
+                if in_class:
+                    if esc[1:].isupper():
+                        raise Unsupported('negated class escape inside a character class')
+                    out.append(body)
+                else:
+                    out.append(('[^' if esc[1:].isupper() else '[') + body + ']')
+            else:
+                out.append(esc)
             i += 2
             continue
         if in_class:
